@@ -285,6 +285,10 @@ def _post_ops(scn):
                 continue
             if post not in seen:
                 seen.append(post)
+            if op.get("infer") and op["op"] == "dump":
+                again = {"op": "dump", "h": 0, "t": op["t"], "o": op["o"], "infer": True}    # the same inferred dump, later
+                if again not in seen:
+                    seen.append(again)
     return seen
 
 
